@@ -4,14 +4,20 @@ A  TLC exhaustive on spec/Phantom:
      MC_Phantom        every small configuration x library version 0-4 x family x every draw (w, id, h) of the three
                        algorithms: Contained, WellFormed, RandPortFromSubnet, UnknownGenerationFails, NoSpuriousError,
                        ZeroWeightNeverChosen
-     MC_Phantom_pure*  2-3 concurrent selectors, per-selection generator (RNG = "local"): Pure for every interleaving
+     MC_Phantom_pure*  2-3 concurrent selectors, per-selection generator (RNG = "local"): Pure for every interleaving,
+                       incl. every interleaving of their first uses of a fresh configuration object (derived table built
+                       in one step, DerivedMode = "once": DerivedSound)
    non-vacuity: RNG = "global" (the process-wide math/rand of compat.go) must violate Pure,
-                AddrBytes = "minimal" (net.IP(big.Int.Bytes())) must violate WellFormed.
+                AddrBytes = "minimal" (net.IP(big.Int.Bytes())) must violate WellFormed,
+                DerivedMode = "lazy-unsynchronised" (table derived from the configuration appended without a lock on first
+                use) must violate Pure with 2 selectors and nothing with 1.
 B  Gen_Phantom prints every case with the result the specification computes; the Go driver reaches every case with a
    real seed (draws recomputed by an independent HKDF / rand.Int interpreter) and compares the real
    PhantomIPSelector.Select / SelectPhantom result; generated large configurations (containment by net/netip,
    well-formedness, port-flag origin, determinism, client = station); 2..32 ungated concurrent selectors against the
-   serial results for every library version.
+   serial results for every library version; stage "fresh": a new configuration object per round, 2..32 goroutines
+   released together on their first selections, compared (and a sequential re-run on the same object) with one
+   goroutine alone on an identical new object.
 C  every concurrent call on the small configurations is recorded and validated by Trace_Phantom (the observed result
    must be the specification's serial result); one corrupted event must be rejected.
 Verdicts come from the real code only (B, C).
@@ -21,7 +27,7 @@ import vlib
 
 PKG = "pkg/phantoms"
 FILES = ["common/vcommon_test.go", "pkg_phantoms/derive_interp_verif_test.go", "pkg_phantoms/phantom_verif_test.go",
-         "pkg_phantoms/phantom_history_verif_test.go"]
+         "pkg_phantoms/phantom_history_verif_test.go", "pkg_phantoms/phantom_fresh_verif_test.go"]
 
 
 def run(ctx):
@@ -45,10 +51,18 @@ def run(ctx):
     rw = ctx.tlc(sdir, "Phantom.tla", "MC_Phantom_aswritten.cfg", timeout=600, count=False)
     if rw["inv"] != "Contained":
         raise vlib.InfraError("the instance that takes a non-canonical CIDR's address as the base should violate Contained, got %s" % rw["inv"])
-    ctx.stage("A", invariants=["TypeOK", "Contained", "WellFormed", "RandPortFromSubnet", "Pure", "UnknownGenerationFails",
+    rl = ctx.tlc(sdir, "Phantom.tla", "MC_Phantom_lazy.cfg", timeout=600, count=False)
+    if rl["inv"] != "Pure":
+        raise vlib.InfraError("the instance that builds the per-configuration derived table lazily without a lock should violate Pure "
+                              "(two interleaved first uses), got %s" % rl["inv"])
+    rl1 = ctx.tlc(sdir, "Phantom.tla", "MC_Phantom_lazy1.cfg", timeout=600, count=False)
+    if rl1["inv"] or not rl1["distinct"]:
+        raise vlib.InfraError("the lazy-unsynchronised instance with ONE selector should violate nothing, got %s" % rl1["inv"])
+    ctx.stage("A", invariants=["TypeOK", "DerivedSound", "Contained", "WellFormed", "RandPortFromSubnet", "Pure", "UnknownGenerationFails",
                                "NoSpuriousError", "ZeroWeightNeverChosen"],
               nonvacuity="RNG=global violates Pure; AddrBytes=minimal violates WellFormed; NetBase=as-written (host bits of a non-canonical "
-                         "CIDR kept in the base) violates Contained (all as expected)")
+                         "CIDR kept in the base) violates Contained; DerivedMode=lazy-unsynchronised (first uses of a fresh configuration "
+                         "object interleave) violates Pure with 2 selectors, nothing with 1 (all as expected)")
 
     # ---- B
     g = ctx.tlc(sdir, "Gen_Phantom.tla", "Gen_Phantom.cfg", timeout=900, workers=8, count=False)
@@ -64,7 +78,7 @@ def run(ctx):
     if not any(x.get("kind") == "end" for x in rows):
         raise vlib.InfraError("driver did not finish:\n" + res["out"][-4000:])
     summ = {x["stage"]: x for x in rows if x.get("kind") == "summary"}
-    for st in ("replay", "generated", "purity"):
+    for st in ("replay", "generated", "purity", "fresh"):
         if st not in summ:
             raise vlib.InfraError("driver summary for stage %s missing" % st)
     nokey = [x for x in rows if x.get("kind") == "nokey"]
@@ -78,6 +92,8 @@ def run(ctx):
     ctx.log("B: generated %(configs)d configs, %(calls)d calls, %(selected)d selected / %(errors)d errors, %(malformed)d malformed, %(violations)d violations"
             % summ["generated"])
     ctx.log("B: purity %(calls)d concurrent calls, %(divergent)d divergent" % summ["purity"])
+    ctx.log("B: fresh %(rounds)d rounds (%(objects)d new configuration objects, %(configs)d configurations), %(calls)d first-use / re-run "
+            "calls, %(divergent)d divergent" % summ["fresh"])
     # history independence: a long-lived selector vs a fresh one for every call of a seeded sequence; configuration unchanged
     hp = os.path.join(ctx.scratch, "phantom_history.ndjson")
     ctx.go_test(PKG, FILES, "phantoms", "^TestVerifPhantomHistory$",
@@ -112,11 +128,14 @@ def run(ctx):
                       % (m["what"], m["lv"], m["fam"], m["seed"], json.dumps(m["got"]), json.dumps(m["config"])), m)
     # (iii) purity - a single divergence is a real-code behaviour; nothing is retried
     for m in [x for x in rows if x.get("kind") == "impure"]:
-        ctx.violation("pure:%s:libver%s" % (m["what"], m["lv"]),
+        # fresh stage: one key (the library version and whether it was a first use or the later sequential re-run are in the message)
+        ctx.violation("pure:fresh-object" if m["what"].startswith("fresh") else "pure:%s:libver%s" % (m["what"], m["lv"]),
                       "selection result changed (%s, %s goroutines) for libver %s family %s seed %s: serial %s, concurrent %s"
                       % (m["what"], m["goroutines"], m["lv"], m["fam"], m["seed"], json.dumps(m["serial"]), json.dumps(m["concurrent"])), m)
     rounds = [x for x in rows if x.get("kind") == "purity-round"]
-    ctx.stage("B", replay=summ["replay"], generated=summ["generated"], purity=summ["purity"],
+    frounds = [x for x in rows if x.get("kind") == "fresh-round"]
+    ctx.stage("B", replay=summ["replay"], generated=summ["generated"], purity=summ["purity"], fresh=summ["fresh"],
+              fresh_rounds=[{k: x[k] for k in ("lv", "goroutines", "calls", "divergent")} for x in frounds],
               purity_rounds=[{k: x[k] for k in ("lv", "goroutines", "calls", "divergent")} for x in rounds])
     for x in [y for y in rows if y.get("kind") == "sample"][:2]:
         ctx.sample({"stage": "B-generated", "config": x["config"]})
@@ -179,7 +198,7 @@ def run(ctx):
     nontrivial = sum(1 for c in cases if c["gen"] == "known" and c["res"]["ok"])
     for c in cases[5:6] + cases[len(cases) // 2:len(cases) // 2 + 1]:
         ctx.sample({"stage": "B-replay", "case": c})
-    ctx.cov["evaluations"] = summ["replay"]["compared"] + summ["generated"]["calls"] + summ["purity"]["calls"]
+    ctx.cov["evaluations"] = summ["replay"]["compared"] + summ["generated"]["calls"] + summ["purity"]["calls"] + summ["fresh"]["calls"]
     ctx.cov["distinct_nontrivial"] = nontrivial + summ["generated"]["classes"] + len([x for x in rounds if x["calls"] > 0])
     ctx.cov["exhaustive"] = False
     ctx.cov["rule"] = ("stage B replay: one case per (configuration, libver, family, draws w/id/h) enumerated by TLC, distinct by construction, "
@@ -192,6 +211,7 @@ def run(ctx):
         "configurations with total weight 0 and groups without subnets are outside the modelled domain",
         "TLC integers are 32-bit: the arithmetic oracle covers the small configurations; large blocks are checked by execution (containment, width, determinism)",
         "purity on the real code is observed by ungated stress (no production hook in compat.go); interleavings are exhaustive in TLC only",
+        "first uses of a fresh configuration object are overlapped by a spin barrier, not gated: a derived-state race is found with high probability per round, not certainly",
     ]
 
 
